@@ -252,3 +252,68 @@ def must_pass(fn, from_blocks, through_pred, to_pred=None):
         for s in succs(fn, b):
             st.append(s)
     return True
+
+
+def only_via_edge(fn, b, label):
+    """blocks that can be reached from the entry only through the out-edge of
+    block b with the given label (control dependence on that outcome)."""
+    blk = fn.blocks[b] if isinstance(b, int) else b
+    full = reachable_blocks(fn)
+    seen = set()
+    st = [fn.entry]
+    while st:
+        x = st.pop()
+        if x in seen:
+            continue
+        seen.add(x)
+        for s, lab in edges(fn, x):
+            if x == blk.id and lab == label:
+                continue
+            st.append(s)
+    return full - seen
+
+
+def cond_blocks(fn):
+    """(block, cond node id) of every two-way branch"""
+    for b in fn.blocks.values():
+        if b.term and b.term.get("cond") is not None and len(b.succs) == 2 and b.term["k"] in COND_TERMS:
+            yield b, b.term["cond"]
+
+
+def sccs(fn):
+    """strongly connected components with at least one edge (loops), as sets
+    of block ids (Tarjan, iterative enough for these CFGs)."""
+    import sys
+    index = {}
+    low = {}
+    onst = set()
+    stack = []
+    out = []
+    counter = [0]
+    sys.setrecursionlimit(max(sys.getrecursionlimit(), 10000))
+
+    def strong(v):
+        index[v] = low[v] = counter[0]
+        counter[0] += 1
+        stack.append(v)
+        onst.add(v)
+        for w in succs(fn, v):
+            if w not in index:
+                strong(w)
+                low[v] = min(low[v], low[w])
+            elif w in onst:
+                low[v] = min(low[v], index[w])
+        if low[v] == index[v]:
+            comp = set()
+            while True:
+                w = stack.pop()
+                onst.discard(w)
+                comp.add(w)
+                if w == v:
+                    break
+            if len(comp) > 1 or v in succs(fn, v):
+                out.append(comp)
+    for b in reachable_blocks(fn):
+        if b not in index:
+            strong(b)
+    return out
